@@ -243,3 +243,52 @@ Proof.
   - split; vm_compute; reflexivity.
 Qed.
 Print Assumptions c04_keep_inhabited.
+
+(* ================================================================================================
+   keep_retains makes no assumption on the comparator: it holds verbatim for the composed model with the comparator
+   and the matcher of C10 (Model/ResolveReal.v), for every spelling of every version name.
+   ================================================================================================ *)
+From Eupsv Require Import Model.ResolveReal Proofs.SetupFullRealExample.
+
+Theorem keep_retains_real fw cfg rc flavors dl rank fuel st al0 rest name li just ok st' al' tr n q :
+  WF2 (fw_products fw) dl rank -> c_keep cfg = true -> flavors <> [] ->
+  nodollar_paths (fw_products fw) (s_env st) ->
+  setup_full_real fw cfg rc flavors fuel st al0 (EKeep :: rest) name li true 0 just = FDone ok st' al' tr ->
+  n <> name ->
+  find_setup_product (fw_products fw) (s_env st) n = Some q ->
+  find_setup_product (fw_products fw) (s_env st') n = Some q.
+Proof. apply keep_retains. Qed.
+Print Assumptions keep_retains_real.
+
+Corollary keep_retains_request_real fw cfg rc flavors dl rank fuel st rest name version just st' tr n q :
+  WF2 (fw_products fw) dl rank -> c_keep cfg = true -> flavors <> [] ->
+  nodollar_paths (fw_products fw) (s_env st) ->
+  select_vro rc (request_opts cfg version) = Ok (EKeep :: rest) ->
+  request_full_real fw cfg rc flavors fuel st name version true just = Ok (Some st', tr) ->
+  n <> name ->
+  find_setup_product (fw_products fw) (s_env st) n = Some q ->
+  find_setup_product (fw_products fw) (s_env st') n = Some q.
+Proof. apply keep_retains_request. Qed.
+Print Assumptions keep_retains_request_real.
+
+(* ---- inhabited: rvx_fw (Proofs/SetupFullRealExample.v); from the state in which libb 1.0.1 and base 1.10-rc1 are set
+   up,  setup --keep base 1.10+1  switches the requested product and leaves libb;  setup --keep libb  keeps base
+   1.10-rc1 ---- *)
+Example c04_keep_real_inhabited :
+  WF2 (fw_products rvx_fw) (SetupWf.dl_of rvx_world) (rank_of rvx_order) /\
+  (exists st' tr,
+     request_full_real rvx_fw ex_cfg_keep default_config ex_flavors 20 rvx_libb_state (lit "base") (Some (lit "1.10+1")) true false
+       = Ok (Some st', tr) /\
+     find_setup_product rvx_world (s_env st') (lit "base") = find_pv rvx_world (lit "base") (lit "1.10+1") /\
+     find_setup_product rvx_world (s_env st') (lit "libb") = find_setup_product rvx_world (s_env rvx_libb_state) (lit "libb")) /\
+  (exists st' tr,
+     request_full_real rvx_fw ex_cfg_keep default_config ex_flavors 20 rvx_libb_state (lit "libb") None true false
+       = Ok (Some st', tr) /\
+     find_setup_product rvx_world (s_env st') (lit "base") = find_pv rvx_world (lit "base") (lit "1.10-rc1")).
+Proof.
+  split; [apply wf2_check_sound; vm_compute; reflexivity|].
+  split; eexists; eexists.
+  - split; [vm_compute; reflexivity|]. split; vm_compute; reflexivity.
+  - split; vm_compute; reflexivity.
+Qed.
+Print Assumptions c04_keep_real_inhabited.
